@@ -29,6 +29,7 @@ THEOREMS = [
     "OllamaVerif.C01.F12b_good_retries",
     "OllamaVerif.Sched.reach_inv",
     "OllamaVerif.Tie.C01.tree_variant_good",
+    "OllamaVerif.Tie.C01.wait_unload_is_pure",
     "OllamaVerif.Tie.C01.expired_region_is_atomic",
     "OllamaVerif.Tie.C01.no_other_delete_site",
     "OllamaVerif.Tie.C01.tree_closed_runner_has_no_user",
